@@ -229,9 +229,12 @@ const CONVERSE: &[Converse] = &[
     Converse {
         name: "modifiers",
         ext: Extensions::COMPONENT_MODIFIERS,
-        variants: &["@&salt{}", "@-thing{}", "@?thing{1%g}", "@+thing{}", "#?pan{}", "#&pot{}"],
+        variants: &["@&salt{}", "@-thing{}", "@?thing{1%g}", "@+thing{}", "#?pan{}", "#&pot{}", "~-ish{10%min}", "~&rest{5%min}", "~+x{1%min}", "~?y{1%min}"],
         check: |r, v| {
             let name = v[1..].split('{').next().unwrap();
+            if v.starts_with('~') {
+                return r.timers.iter().find(|t| t.name.as_deref() == Some(name)).map(|_| ()).ok_or_else(|| format!("no timer named {name:?}; timers {:?}", r.timers.iter().map(|t| &t.name).collect::<Vec<_>>()));
+            }
             if v.starts_with('@') {
                 let i = ingredient(r, name)?;
                 if !i.modifiers().is_empty() {
@@ -370,6 +373,15 @@ pub fn check_converse(ctx: &mut Ctx, ps: &mut Parsers, subsets: &[u32]) {
                         ctx.violation(&case, "converse", &format!("{}|not_core_reading", c.name), format!("with {:?} disabled (extensions {:#x}) {v:?}: {m}", c.ext, e));
                         continue;
                     }
+                    if c.name == "modes" {
+                        // the bracketed key is plain metadata for the metadata-only parse as well
+                        if let Ok(mr) = crate::core::guarded(|| parser.parse_metadata(&text)) {
+                            if mr.output().is_some_and(|m| *m != out.metadata) {
+                                ctx.violation(&case, "converse", "modes|metadata_only_parse_differs", format!("with MODES disabled (extensions {:#x}) parse_metadata gives {:?}, parse gives {:?}", e, mr.output().map(|m| serde_json::to_string(m).unwrap_or_default()), serde_json::to_string(&out.metadata).unwrap_or_default()));
+                                continue;
+                            }
+                        }
+                    }
                     let img = serde_json::to_value(out).unwrap();
                     match &first {
                         None => first = Some(img),
@@ -394,6 +406,20 @@ pub fn run(ctx: &mut Ctx) {
     let subsets: Vec<u32> = all_extension_subsets().iter().map(|e| e.bits()).collect();
     ctx.notes.insert("extension_subsets".into(), subsets.len().into());
     check_converse(ctx, &mut ps, &subsets);
+    // core texts the generator does not write: stray markers, lone braces and parentheses, operators, numbers without
+    // units — no model, the comparison across all 192 subsets is the oracle (no error, one image)
+    const STRAY: &[&str] = &[
+        "Serve @ room temperature with #forks{}.", "Item # 2 goes in the #bowl{}.", "Wait ~ 10 minutes, then add @salt{1%g}.", "mail me @ home # 3 ~ later",
+        "a } b and a ) c ( d", "50% of the @milk{1%l} | half", "2 > 1 = true : ok", "x * y + z / w ? no & yes", "Use 3 of them, or 4.5, or 1/2.",
+        "end with a marker @", "end with a hash #", "end with a tilde ~", "@ start with a stray marker", "text with \\@escaped and \\{brace\\}",
+        "A step.\n\n> A paragraph with @ and # and ~ in it.\n\n= A section = with @ stray\n\nLast @salt{}.", "tab\there @a{1}\tthere", "a  b   c @a{} d",
+    ];
+    for (k, t) in STRAY.iter().enumerate() {
+        if ctx.mine(k as u64) {
+            ctx.count("core_stray_texts");
+            check_core(ctx, &mut ps, &subsets, t, None);
+        }
+    }
     let n = ctx.budget(1_600, 120_000);
     let opts = GenOpts::core();
     for i in 0..n {
